@@ -276,7 +276,9 @@ theorem C05_keep (L : Layout) (hL : NoAbs L) (x : Sys) (hx : ReachableEv L x) (e
         have k2 : Keeps y (afterConsume (pressPrep x.s k) fm) (addPhase2 (afterConsume (pressPrep x.s k) fm) k fm).1
             (addPhase2 (afterConsume (pressPrep x.s k) fm) k fm).2 := by
           rw [addPhase2_clean k fm hc1 (afterConsume_clear (pressPrep x.s k) fm)]
-          cases isActionMapping fm
+          -- (fix of D7) whether the block runs depends on `producesActionKey fm`; if it runs, what
+          -- `release_action_mappings` collects does not depend on `fm` at all (`hram`)
+          cases producesActionKey fm
           · exact ⟨fun h => h, by simp⟩
           · exact ram_keeps _ y (hram _ rfl)
         have k3 : Keeps y (addPhase2 (afterConsume (pressPrep x.s k) fm) k fm).1
